@@ -1,5 +1,6 @@
 import PugModel.Sys.Assets
 import PugModel.Gen.Tables
+import PugProofs.Guard
 /-!
 # C19 — static assets are served only from the dist directory; CORS follows the whitelist
 -/
@@ -74,6 +75,49 @@ Open strips the first /assets/ and refuses directories and stat errors -/
 theorem C19_shape :
     Gen.corsTest_ok = true ∧ Gen.corsHeaderIsOrigin = true ∧ Gen.assetDir = "frontend/dist/" ∧ (Gen.assetOpenShape.all (·.2)) = true ∧
     Gen.assetOpenShape.length = 2 := by decide
+
+/-! ## assetFileSystem.Open, translated statement by statement -/
+
+open Pug.Gen in
+/-- the check on one run of `Open`: if the file handle is returned, then the open succeeded, the stat succeeded, the name is
+not a directory, and both calls were made before -/
+def openCheck (p : List Gen.GStmt) (v : String → Bool) : Bool :=
+  match Gen.GStmt.run v p [] with
+  | some (out, done) =>
+    if out == "serve" then !(v "openErr") && !(v "statErr") && !(v "isDir") && done.contains "open" && done.contains "stat"
+    else true
+  | none => false       -- falling off the end without a return is not a Go function
+
+def openAtoms : List String := Gen.GStmt.atoms Gen.assetOpenProg ++ ["openErr", "statErr", "isDir"]
+
+theorem openCheck_congr (v w : String → Bool) (h : ∀ a ∈ openAtoms, v a = w a) :
+    openCheck Gen.assetOpenProg v = openCheck Gen.assetOpenProg w := by
+  unfold openCheck
+  rw [Gen.GStmt.run_congr Gen.assetOpenProg v w [] (fun a ha => h a (by simp [openAtoms, ha]))]
+  rw [h "openErr" (by simp [openAtoms]), h "statErr" (by simp [openAtoms]), h "isDir" (by simp [openAtoms])]
+
+/-- **C19 (Open never hands out a directory).** For EVERY outcome of the file-system calls and EVERY value of any condition
+the translator does not interpret: `assetFileSystem.Open`, as it is written in module.go now, returns the file only after a
+successful open and stat of a name that is not a directory. -/
+theorem C19_open_refuses_directories (v : String → Bool) :
+    Gen.assetOpenProg_ok = true ∧ openCheck Gen.assetOpenProg v = true := by
+  refine ⟨by decide, ?_⟩
+  exact Gen.forall_vals openAtoms (openCheck Gen.assetOpenProg) openCheck_congr (by decide) v
+
+/-- unfolding of the check: what `C19_open_refuses_directories` says about a run that serves -/
+theorem C19_open_serves_only_regular (v : String → Bool) (done : List String)
+    (h : Gen.GStmt.run v Gen.assetOpenProg [] = some ("serve", done)) :
+    v "openErr" = false ∧ v "statErr" = false ∧ v "isDir" = false ∧ "open" ∈ done ∧ "stat" ∈ done := by
+  have := (C19_open_refuses_directories v).2
+  unfold openCheck at this
+  rw [h] at this
+  have h5 : (((v "openErr" = false ∧ v "statErr" = false) ∧ v "isDir" = false) ∧ "open" ∈ done) ∧ "stat" ∈ done := by
+    simpa using this
+  exact ⟨h5.1.1.1.1, h5.1.1.1.2, h5.1.1.2, h5.1.2, h5.2⟩
+
+/-- non-vacuity: a run on a regular file serves; a run on a directory refuses -/
+example : (Gen.GStmt.run (fun _ => false) Gen.assetOpenProg []).map (·.1) = some "serve" := by decide
+example : (Gen.GStmt.run (fun a => a == "isDir") Gen.assetOpenProg []).map (·.1) = some "refuse" := by decide
 
 /-! non-vacuity (on explicit segment lists; `String.splitOn` does not reduce in the kernel) -/
 example : normSegs ["assets", "..", "..", "secret.txt"] [] = ["secret.txt"] := by decide
